@@ -96,6 +96,15 @@ def build(case):
         ds = ds[:n // 2].concatenate(ds[n // 2:])
     elif up == 'cache':
         ds = ds.cache()
+    elif up in ('cache_warm_rev', 'cache_warm_shuffled', 'nested_concat'):
+        if up == 'nested_concat' and n >= 3:
+            # a concatenation of a concatenation (train + dev + test built step by step)
+            ds = ds[:1].concatenate(ds[1:2]).concatenate(ds[2:])
+        else:
+            # a memory cache that an earlier epoch over a reversed / shuffled view has filled completely, out of order
+            import numpy as np
+            ds = ds.cache(keep_mem_free='1 KB')
+            list(ds[::-1] if up == 'cache_warm_rev' else ds.shuffle(False, rng=np.random.RandomState(n)))
     return ds
 
 
@@ -250,7 +259,8 @@ def st_case(draw):
     n = draw(st.integers(0, 8))
     src = draw(st.sampled_from(['list', 'dict']))
     case = {'n': n, 'src': src, 'sortvals': draw(st.lists(st.integers(0, 3), min_size=8, max_size=8)),
-            'upstream': draw(st.sampled_from([None, None, 'map', 'slice', 'concat', 'cache']))}
+            'upstream': draw(st.sampled_from([None, None, 'map', 'slice', 'concat', 'cache', 'cache_warm_rev',
+                                                 'cache_warm_shuffled', 'nested_concat']))}
     if src == 'dict':
         case['keys'] = draw(st.permutations(['k%d' % i for i in (0, 1, 2, 3, 10, 11, 20, 100)]))[:n]
     case['op'] = draw(st.sampled_from(['sort', 'sort', 'groupby']))
